@@ -393,6 +393,28 @@ impl Ctx {
     }
 }
 
+/// RAII: tracking on (restored on drop, also when a panic unwinds through)
+struct TrackOn(bool);
+impl TrackOn {
+    fn new() -> Self {
+        TrackOn(sh::alloc::track(true))
+    }
+}
+impl Drop for TrackOn {
+    fn drop(&mut self) {
+        sh::alloc::track(self.0);
+    }
+}
+
+/// subject code runs with allocation tracking on (C15); harness bookkeeping runs with it off
+#[inline]
+fn subj<R>(f: impl FnOnce() -> R) -> R {
+    let t = sh::alloc::track(true);
+    let r = f();
+    sh::alloc::track(t);
+    r
+}
+
 fn mark_panic() {
     let mut sm = sh::summary();
     sm[S_PANIC] = 1;
@@ -440,11 +462,13 @@ where
 {
     let what = op.show();
     sh::begin_call();
-    let r: Result<Option<(Option<usize>, I::Item)>, String> = sh::guarded(|| match op {
-        Op::Next | Op::DrainNext => it.next().map(|v| (None, v)),
-        Op::IdVal | Op::DrainIdVal => it.next_id_and_value().map(|x| (Some(x.idx), x.value)),
-        Op::Vals | Op::DrainVals => it.values().next().map(|v| (None, v)),
-        _ => it.ids_and_values().next().map(|(i, v)| (Some(i), v)),
+    let r: Result<Option<(Option<usize>, I::Item)>, String> = sh::guarded(|| {
+        subj(|| match op {
+            Op::Next | Op::DrainNext => it.next().map(|v| (None, v)),
+            Op::IdVal | Op::DrainIdVal => it.next_id_and_value().map(|x| (Some(x.idx), x.value)),
+            Op::Vals | Op::DrainVals => it.values().next().map(|v| (None, v)),
+            _ => it.ids_and_values().next().map(|(i, v)| (Some(i), v)),
+        })
     });
     let ci = sh::end_call();
     match r {
@@ -490,7 +514,7 @@ where
                 loop {
                     sh::begin_call();
                     // the values of a chunk may be produced lazily (clones): consume inside the guarded region
-                    let r = sh::guarded(|| match it.next_chunk(n) {
+                    let r = sh::guarded(|| match subj(|| it.next_chunk(n)) {
                         Some(c) => {
                             let ci = sh::end_call();
                             let b = c.begin_idx;
@@ -519,7 +543,7 @@ where
             }
             Op::Buf(n, _, _) | Op::DrainBuf(n) => {
                 let (j, k) = if let Op::Buf(_, j, k) = op { (j, k) } else { (usize::MAX, ALL) };
-                let bi = sh::guarded(|| it.buffered_iter(n));
+                let bi = sh::guarded(|| subj(|| it.buffered_iter(n)));
                 let mut bi = match bi {
                     Ok(b) => b,
                     Err(m) => {
@@ -533,7 +557,7 @@ where
                     sh::begin_call();
                     // results of a buffered pull borrow the buffer: consume inside the guarded region
                     let kk = if k != ALL && k >= LASTALL { if pulls == j { ALL } else { k - LASTALL } } else { k };
-                    let r = sh::guarded(|| match bi.next() {
+                    let r = sh::guarded(|| match subj(|| bi.next()) {
                         Some(c) => {
                             let b = c.begin_idx;
                             let ci = sh::end_call();
@@ -563,6 +587,7 @@ where
                 sh::begin_call();
                 let expected = Cell::new(0u64);
                 let on_item = |idx: Option<usize>, x: I::Item| -> u64 {
+                    let _nt = sh::alloc::NoTrack::new();
                     cx.closure_entry();
                     let s = obs(&x);
                     if let Some(i) = idx {
@@ -578,7 +603,9 @@ where
                     cx.consume(x);
                     w
                 };
-                let r = sh::guarded(|| match op {
+                let r = sh::guarded(|| {
+                    let _t = TrackOn::new();
+                    match op {
                     Op::ForEach(_) => {
                         it.for_each(n, |x| {
                             on_item(None, x);
@@ -592,6 +619,7 @@ where
                         None
                     }
                     _ => Some(it.fold(n, 0u64, |acc, x| acc + on_item(None, x))),
+                    }
                 });
                 let _ci = sh::end_call();
                 match r {
@@ -622,7 +650,7 @@ where
             }
             Op::Skip => {
                 sh::begin_call();
-                let r = sh::guarded(|| it.skip_to_end());
+                let r = sh::guarded(|| subj(|| it.skip_to_end()));
                 let _ci = sh::end_call();
                 match r {
                     Ok(()) => {
@@ -685,9 +713,11 @@ where
     ledger_reset(if let Fault::Clone(k) = fault { Some(k) } else { None });
     probe::probe_reset(if let Fault::Next(k) = fault { Some(k) } else { None });
     let len = cfg.len;
+    sh::alloc::track(false);
+    sh::alloc::reset();
     let src: *mut Src = Box::into_raw(Box::new(Src { elems: (0..len).map(Elem::new).collect(), nums: (0..len).map(key_of).collect() }));
     let sref: &'static Src = unsafe { &*src };
-    let it = make(sref);
+    let it = subj(|| make(sref));
     let (src_base, src_stride) = match cfg.kind {
         K::Slice | K::VecRef => (sref.elems.as_ptr() as usize, std::mem::size_of::<Elem>()),
         _ => (0, 0),
@@ -790,22 +820,22 @@ where
         }
         match cfg.fin {
             Final::Drop => {
-                if let Err(m) = sh::guarded(move || drop(it)) {
+                if let Err(m) = sh::guarded(move || subj(move || drop(it))) {
                     cx.viol("PANIC", "unexpected-panic", format!("dropping the iterator panicked: {m}"));
                 }
             }
             Final::Seq | Final::SeqK(_) => {
                 let k = if let Final::SeqK(k) = cfg.fin { k } else { usize::MAX };
                 let r = sh::guarded(move || {
-                    let mut seq = it.into_seq_iter();
+                    let mut seq = subj(move || it.into_seq_iter());
                     let mut v = vec![];
                     while v.len() < k {
-                        match seq.next() {
+                        match subj(|| seq.next()) {
                             Some(x) => v.push(x),
                             None => break,
                         }
                     }
-                    drop(seq);
+                    subj(move || drop(seq));
                     v
                 });
                 match r {
@@ -854,6 +884,12 @@ where
             if !cl.is_empty() {
                 cx.viol("C13", "clone-ledger", format!("clones created and destroyed differ for positions {cl:?}"));
             }
+        }
+    }
+    if complete && cfg.kind.consuming() {
+        let (blocks, bytes) = sh::alloc::live();
+        if blocks != 0 {
+            cx.viol("C15", "leak", format!("{blocks} heap block(s) / {bytes} bytes that belonged to the consumed collection or were allocated by the iterator are still live after everything was dropped"));
         }
     }
     drop(shared); // drops the source
